@@ -99,6 +99,23 @@ func mkUnencodable(id, kind int) PVal {
 	return v
 }
 
+// replayedPVal, when set, is shown every PVal a resumable subscription hands to its handler (by value or by
+// pointer), before the handler proper; a check that publishes variant id%6 can compare the whole value.
+var replayedPVal func(e PVal)
+
+func notePVal(e PVal) {
+	if replayedPVal != nil {
+		replayedPVal(e)
+	}
+}
+
+// pvalIntact: e is what decoding the stored form of mkPVal(e.ID, e.ID%6) yields
+func pvalIntact(e PVal) bool {
+	var want PVal
+	json.Unmarshal(mustJSON(mkPVal(e.ID, e.ID%6)), &want)
+	return reflect.DeepEqual(e, want)
+}
+
 // shape gives non-generic access to publish/subscribe for one event shape.
 type shape struct {
 	Name     string
@@ -151,7 +168,7 @@ var shapes = []*shape{
 		},
 		IDOf: func(ev any) (int, bool) { e, ok := ev.(PVal); return e.ID, ok },
 		SubReplay: func(ctx context.Context, bus *eventbus.EventBus, subID string, h func(int)) error {
-			return eventbus.SubscribeWithReplay(ctx, bus, subID, func(e PVal) { h(e.ID) })
+			return eventbus.SubscribeWithReplay(ctx, bus, subID, func(e PVal) { notePVal(e); h(e.ID) })
 		},
 	},
 	{
@@ -181,7 +198,7 @@ var shapes = []*shape{
 			return e.ID, true
 		},
 		SubReplay: func(ctx context.Context, bus *eventbus.EventBus, subID string, h func(int)) error {
-			return eventbus.SubscribeWithReplay(ctx, bus, subID, func(e *PVal) { h(e.ID) })
+			return eventbus.SubscribeWithReplay(ctx, bus, subID, func(e *PVal) { notePVal(*e); h(e.ID) })
 		},
 	},
 	{
